@@ -14,13 +14,20 @@ for d in sorted(glob.glob(V+'/seeded/*')):
     out=subprocess.run([V+'/tools/try_seed.sh',d],capture_output=True,text=True).stdout
     keys=[l.split()[1] for l in out.splitlines() if l.startswith(('violation','undecided'))]
     status={l.split()[1]:l.split()[0] for l in out.splitlines() if l.startswith(('violation','undecided'))}
+    # the properties the failing obligation itself carries (falls back to the rule's list)
+    oprops={}
+    for l in out.splitlines():
+        if l.startswith(('violation','undecided')):
+            f=l.split()
+            if len(f)>2 and f[2].startswith('['): oprops[f[1]]=f[2].strip('[]').split(',')
     meta=json.load(open(d+'/meta.json'))
     prop=meta['property']
     det=[{'rule':k.split('/')[0],'expect_key':k,'status':status[k]} for k in keys]
     # keep only detections by rules that serve the seeded property first; others are listed separately
     det.sort(key=lambda x: (x['status']!='violation'))
-    own=[x for x in det if prop in rules.get(x['rule'],[])]
-    other=[x for x in det if prop not in rules.get(x['rule'],[])]
+    carries=lambda x: prop in oprops.get(x['expect_key'], rules.get(x['rule'],[]))
+    own=[x for x in det if carries(x)]
+    other=[x for x in det if not carries(x)]
     meta['detect']=own[:3]
     meta['also_reported_by_checks_of_other_properties']=[{'rule':x['rule'],'key':x['expect_key'],'properties':rules.get(x['rule'],[])} for x in other[:3]]
     meta['missed']= (len(own)==0)
